@@ -131,6 +131,38 @@ def sum_list(eng, l, start, line):
     return eng.binop(ast.Add(), start, SV(total, INT), line)
 
 
+def sum_gen(eng, gen, start, line):
+    """sum(<int expression> for ... in <symbolic collection(s)> [if ...]): the value is a fresh (Skolem, over the bound
+    variables of an enclosing summarised comprehension) integer known through facts every finite sum satisfies - nothing
+    selected -> 0; all selected terms >= 0 -> the sum is >= 0, >= every term and >= any two terms of distinct
+    positions.  (Two evaluations of the same sum are not known to be equal: sound, lower bounds only.)"""
+    q = eng.quantified_gen(gen, 'elems')
+    if q[0] != 'sym':
+        raise Unsupported(f'sum() of a generator over a constant sequence at line {line}')
+    _, vars_, guard, elt, coll = q
+    et = eng.num_term(elt, line)
+    if et.sort() != I:
+        raise Unsupported(f'sum() of non-integer terms at line {line}')
+    qvars = [v for vs, _ in eng.generic_scopes for v in vs]
+    if qvars:
+        s = eng.skolem_value('gensum', INT, qvars, []).t
+    else:
+        s = eng.run.fresh('gensum', I)
+    v2 = [z3.Const(f'{v.decl().name()}!2', v.sort()) for v in vars_]
+    sub = list(zip(vars_, v2))
+    guard2, et2 = z3.substitute(guard, *sub), z3.substitute(et, *sub)
+    apart = (vars_[0] < v2[0]) if (len(vars_) == 1 and vars_[0].sort() == I) else z3.Or([a != b for a, b in sub])
+    nonneg = z3.ForAll(vars_, z3.Implies(guard, et >= 0))
+    facts = z3.And(
+        z3.Implies(z3.Not(z3.Exists(vars_, guard)), s == 0),
+        z3.Implies(nonneg, z3.And(s >= 0, z3.ForAll(vars_, z3.Implies(guard, s >= et)),
+                                  z3.ForAll(vars_ + v2, z3.Implies(z3.And(guard, guard2, apart), s >= et + et2)))))
+    eng.run.assume(z3.ForAll(qvars, facts) if qvars else facts, silent=True)
+    if start == 0 and not isinstance(start, bool):
+        return SV(s, INT)
+    return eng.binop(ast.Add(), start, SV(s, INT), line)
+
+
 def _key_of(eng, key, val, line):
     if key is None:
         return val
